@@ -79,7 +79,9 @@ STRING_PATTERN = rf"(?P<{GROUP_QUOTE}>[\"'])(?P<{GROUP_QUOTED}>.*?)(?P={GROUP_QU
 # Rules for the standard boolean expression.
 # Does not support grouping with parentheses.
 _rules = (
-    (TOKEN_RANGE_LITERAL, r"\((?=.+?\.\.)"),
+    # An opening parenthesis that is followed by `..` before any other
+    # parenthesis. Otherwise it's the start of a group of terms.
+    (TOKEN_RANGE_LITERAL, r"\((?=[^()]*?\.\.)"),
     (TOKEN_IDENTINDEX, IDENTINDEX_PATTERN),
     (TOKEN_IDENTSTRING, IDENTSTRING_PATTERN),
     (TOKEN_STRING, STRING_PATTERN),
